@@ -37,8 +37,9 @@ Fixpoint take_while (f : N -> bool) (s : list N) : list N :=
   | c :: r => if f c then c :: take_while f r else []
   end.
 
+(* (rev' = rev_append _ []: the linear-time reverse; List.rev is quadratic under vm_compute) *)
 Definition strip_with (f : N -> bool) (s : list N) : list N :=
-  rev (drop_while f (rev (drop_while f s))).
+  rev' (drop_while f (rev' (drop_while f s))).
 
 (* str.isspace / str.strip() on latin-1 *)
 Definition py_space (c : N) : bool :=
